@@ -3890,3 +3890,7 @@ mod tests {
         assert!(msg.contains("write prefix"), "unexpected error: {msg}");
     }
 }
+
+#[cfg(kani)]
+#[path = "/verif/kani/arrow-avro/writer/encoder.rs"]
+mod verif_kani;
